@@ -12,7 +12,7 @@ use proptest::prelude::*;
 use serde_json::{json, Value};
 use std::time::Duration;
 
-pub const JUNK: [&str; 16] = ["-1", "1e3", "0x10", "1234567890123456789012345678901234567890", "abc", "", "3.5", "+7", "18446744073709551616", "256", "NaN", "١٢٣", "né", "\u{1F600}", "0000000000000000000000000000000000000005", "-0"];
+pub const JUNK: [&str; 22] = ["10000000000000000000000", "340282366920938463463374607431768211455", "170141183460469231731687303715884105728", "e\u{e9}4", "e2e\u{e9}", "\u{ff12}\u{ff14}", "-1", "1e3", "0x10", "1234567890123456789012345678901234567890", "abc", "", "3.5", "+7", "18446744073709551616", "256", "NaN", "١٢٣", "né", "\u{1F600}", "0000000000000000000000000000000000000005", "-0"];
 const GO_KEYS: [&str; 7] = ["wtime", "btime", "winc", "binc", "depth", "nodes", "movetime"];
 const GO_FLAGS: [&str; 5] = ["searchmoves", "ponder", "movestogo", "mate", "infinite"];
 
